@@ -1427,6 +1427,10 @@ class StreamTokenizer:
                     self._state = self.NOISE
                     if len(self._data) >= self.max_length:
                         return self._process_end_of_detection(True)
+                elif len(self._data) >= self.max_length:
+                    # max_length is reached before _init_count, back to silence
+                    self._data = []
+                    self._state = self.SILENCE
 
             else:
                 self._silence_length += 1
